@@ -161,7 +161,7 @@ Proof.
   destruct (Nat.ltb (length (m_own m)) 32); [reflexivity|].
   destruct (negb (mem_first_is 60 (m_own m))); [reflexivity|].
   destruct (mem_next_field (m_own m) 0 (length (m_own m))) as [e|]; [|reflexivity].
-  destruct (Nat.ltb e 2); [exact I|].
+  destruct (Nat.ltb e 2); [reflexivity|].
   destruct (negb _); [reflexivity|].
   destruct (mem_atoi _) as [pri|]; [|reflexivity].
   destruct (_ || _)%bool; [reflexivity|].
@@ -177,7 +177,7 @@ Proof.
   intros pa m r off len m' r' ov H. unfold mem_parse_msg in H.
   match type of H with mem_rbind ?c _ = _ => destruct c as [[m1 l1]| |s] eqn:E end; cbn in H; try discriminate.
   inversion H; subst; clear H. cbn. rewrite mem_list_set_length. split; [|reflexivity].
-  destruct (p_max_rec pa <=? N.of_nat (length (m_own m)))%N.
+  destruct ((p_max_msg pa <? N.of_nat len)%N || (p_max_rec pa <=? N.of_nat (length (m_own m)))%N)%bool.
   - eapply mem_clean_shape; eauto.
   - inversion E; subst. reflexivity.
 Qed.
@@ -397,7 +397,7 @@ Proof.
     inversion H; subst. unfold mem_parse_msg in E.
     match type of E with mem_rbind ?c _ = _ => destruct c as [[m2 l2]| |s] eqn:E2 end; cbn in E; try discriminate.
     inversion E; subst.
-    destruct (p_max_rec pa <=? N.of_nat (length (m_own m)))%N.
+    destruct ((p_max_msg pa <? N.of_nat len)%N || (p_max_rec pa <=? N.of_nat (length (m_own m)))%N)%bool.
     + eapply mem_clean_private; [|exact E2]. reflexivity.
     + inversion E2; subst. apply mem_keeps_cfg_refl.
 Qed.
@@ -1976,7 +1976,7 @@ Lemma mem_parse_no_fault : forall pa ls m r, mem_parse pa ls m r <> RFault.
 Proof.
   intros pa ls m r. unfold mem_parse. destruct (mem_parse_head ls m r) as [rb|s|r3 off len]; try discriminate.
   unfold mem_parse_msg.
-  destruct (p_max_rec pa <=? N.of_nat (length (m_own m)))%N.
+  destruct ((p_max_msg pa <? N.of_nat len)%N || (p_max_rec pa <=? N.of_nat (length (m_own m)))%N)%bool.
   - pose proof (mem_clean_private_no_fault m EOwn off (if (p_max_msg pa <? N.of_nat len)%N then N.to_nat (p_max_msg pa) else len) eq_refl) as Hc.
     destruct (mem_clean_utf8 m EOwn off _); cbn; congruence.
   - cbn. discriminate.
@@ -2135,20 +2135,25 @@ Proof.
   - destruct (forallb _ conds); [discriminate|apply IH].
 Qed.
 
-(* the parser: only the first-token slice of defect 1 (property C09) *)
-Lemma mem_parse_panic_site : forall pa ls m r s, mem_parse pa ls m r = RPanic s -> s = 4%N.
+(* the parser: the first-token slice of defect 1 (property C09) has been repaired; nothing else can panic *)
+Lemma mem_parse_head_no_panic : forall ls m r s, mem_parse_head ls m r <> HdPanic s.
+Proof.
+  intros ls m r s. unfold mem_parse_head.
+  destruct (Nat.ltb (length (m_own m)) 32); [discriminate|].
+  destruct (negb (mem_first_is 60 (m_own m))); [discriminate|].
+  destruct (mem_next_field (m_own m) 0 (length (m_own m))) as [e|]; [|discriminate].
+  destruct (Nat.ltb e 2); [discriminate|].
+  destruct (negb _); [discriminate|]. destruct (mem_atoi _); [|discriminate].
+  destruct (_ || _)%bool; [discriminate|]. destruct (mem_parse_rest _ _ _ _ _ _) as [[[? ?] ?]|]; discriminate.
+Qed.
+
+Lemma mem_parse_no_panic : forall pa ls m r s, mem_parse pa ls m r <> RPanic s.
 Proof.
   intros pa ls m r s H. unfold mem_parse in H.
   destruct (mem_parse_head ls m r) as [rb|s0|r3 off len] eqn:Eh; try discriminate.
-  - inversion H; subst. unfold mem_parse_head in Eh.
-    destruct (Nat.ltb (length (m_own m)) 32); [discriminate|].
-    destruct (negb (mem_first_is 60 (m_own m))); [discriminate|].
-    destruct (mem_next_field (m_own m) 0 (length (m_own m))) as [e|]; [|discriminate].
-    destruct (Nat.ltb e 2); [inversion Eh; reflexivity|].
-    destruct (negb _); [discriminate|]. destruct (mem_atoi _); [|discriminate].
-    destruct (_ || _)%bool; [discriminate|]. destruct (mem_parse_rest _ _ _ _ _ _) as [[[? ?] ?]|]; discriminate.
-  - exfalso. unfold mem_parse_msg in H.
-    destruct (p_max_rec pa <=? N.of_nat (length (m_own m)))%N.
+  - eapply mem_parse_head_no_panic; eauto.
+  - unfold mem_parse_msg in H.
+    destruct ((p_max_msg pa <? N.of_nat len)%N || (p_max_rec pa <=? N.of_nat (length (m_own m)))%N)%bool.
     + destruct (mem_clean_in_range m EOwn off (if (p_max_msg pa <? N.of_nat len)%N then N.to_nat (p_max_msg pa) else len)) as [Hc _].
       destruct (mem_clean_utf8 m EOwn off _) as [[m1 l1]| |s1]; cbn in H; [discriminate|discriminate|exact (Hc s1 eq_refl)].
     + cbn in H. discriminate.
@@ -2167,33 +2172,33 @@ Proof.
   destruct (mem_release g h); [discriminate|congruence].
 Qed.
 
-Lemma mem_step_panic_site : forall c g e s, mem_step c g e = StepStop (GoPanic s) -> s = 4%N.
+Lemma mem_step_no_gopanic : forall c g e s, mem_step c g e <> StepStop (GoPanic s).
 Proof.
   intros c g e s H. destruct e as [cs cb input ts|h|h]; cbn [mem_step] in H.
   - destruct (mem_new_record c g cs cb input) as [[[[[[h r] bufs] cpy] slots]|]|s0] eqn:Enr; [|discriminate|].
     2:{ apply mem_new_record_inr in Enr. subst s0. discriminate. }
     destruct (mem_local_of _ _ _) as [[m lr]|]; [|discriminate].
-    pose proof (mem_parse_panic_site (c_params c) (c_level_sites c) m lr) as Hp.
-    destruct (mem_parse (c_params c) (c_level_sites c) m lr) as [[[[m1 lr1] pst] ov]| |s1]; [|discriminate|inversion H; subst; apply Hp; reflexivity].
-    destruct pst; [|exfalso; eapply mem_release_final_no_gopanic; eauto].
+    pose proof (mem_parse_no_panic (c_params c) (c_level_sites c) m lr) as Hp.
+    destruct (mem_parse (c_params c) (c_level_sites c) m lr) as [[[[m1 lr1] pst] ov]| |s1]; [|discriminate|exact (Hp s1 eq_refl)].
+    destruct pst; [|eapply mem_release_final_no_gopanic; eauto].
     pose proof (mem_run_txs_no_panic (c_trunc_mode c) (c_extract c) m1 lr1) as Ht.
-    destruct (mem_run_txs (c_trunc_mode c) m1 lr1 (c_extract c)) as [[[m2 lr2] b]| |s1]; [|discriminate|exfalso; exact (Ht s1 eq_refl)].
-    destruct b; [discriminate|exfalso; eapply mem_release_final_no_gopanic; eauto].
+    destruct (mem_run_txs (c_trunc_mode c) m1 lr1 (c_extract c)) as [[[m2 lr2] b]| |s1]; [|discriminate|exact (Ht s1 eq_refl)].
+    destruct b; [discriminate|eapply mem_release_final_no_gopanic; eauto].
   - destruct (nth_error (g_slots g) h) as [[r st]|]; [|discriminate].
     destruct st as [|l|]; try discriminate. destruct (l_phase l); [|discriminate].
     destruct (mem_local_of g r l) as [[m lr]|]; [|discriminate].
     pose proof (mem_run_txs_no_panic (c_trunc_mode c) (c_transforms c) m lr) as Ht.
-    destruct (mem_run_txs (c_trunc_mode c) m lr (c_transforms c)) as [[[m2 lr2] b]| |s1]; [|discriminate|exfalso; exact (Ht s1 eq_refl)].
-    destruct b; [discriminate|exfalso; eapply mem_release_final_no_gopanic; eauto].
+    destruct (mem_run_txs (c_trunc_mode c) m lr (c_transforms c)) as [[[m2 lr2] b]| |s1]; [|discriminate|exact (Ht s1 eq_refl)].
+    destruct b; [discriminate|eapply mem_release_final_no_gopanic; eauto].
   - destruct (nth_error (g_slots g) h) as [[r st]|]; [|discriminate].
     destruct st as [|l|]; try discriminate. destruct (l_phase l); [discriminate|].
     destruct (nth_error (c_outputs c) done) as [oc|]; [|discriminate].
     destruct (mem_local_of g r l) as [[m lr]|]; [|discriminate].
-    destruct (mem_serialize _ _ oc m lr) as [d lr1]. exfalso. eapply mem_release_no_gopanic; eauto.
+    destruct (mem_serialize _ _ oc m lr) as [d lr1]. eapply mem_release_no_gopanic; eauto.
 Qed.
 
-Lemma mem_run_panic_site : forall c evs g s, mem_run c g evs = StepStop (GoPanic s) -> s = 4%N.
+Lemma mem_run_no_gopanic : forall c evs g s, mem_run c g evs <> StepStop (GoPanic s).
 Proof.
   intros c evs. induction evs as [|e evs IH]; intros g s H; cbn in H; [discriminate|].
-  destruct (mem_step c g e) as [g'|s0] eqn:E; [eapply IH; eauto|]. inversion H; subst. eapply mem_step_panic_site; eauto.
+  destruct (mem_step c g e) as [g'|s0] eqn:E; [eapply IH; eauto|]. inversion H; subst. eapply mem_step_no_gopanic; eauto.
 Qed.
